@@ -8,7 +8,12 @@ import (
 	. "verifharness/common"
 )
 
-var pipeNames = []string{"pa", "pb", "pc", "pd", fwdPipe} // the first four never match a partition
+// the numbers of the pipes in the model: pa..pd never match a partition, pf forwards; "s" is the name whose progress file
+// pipe<name>.dat is pipes.dat (reg_twin in model/Persist.v is 5)
+var pipeNames = []string{"pa", "pb", "pc", "pd", fwdPipe, "s"}
+
+// idlePool: the names for pipes that never match a partition
+var idlePool = []string{"pa", "pb", "pc", "pd", "s"}
 
 func pipeIndex(n string) int {
 	for i, p := range pipeNames {
@@ -25,14 +30,17 @@ func pipeIndex(n string) int {
 // write to the source, wait for the pipe to catch up with what is flushed"; the destination must hold every flushed
 // source event exactly once, also after the pipe resumed from its persisted progress
 func genFwd(r *Rng) Scenario {
-	sc := Scenario{Kind: "fwd", NParts: 2}
+	sc := Scenario{Kind: "fwd", NParts: 2, Pipe: r.PickStr(fwdPipe, fwdPipe, "s")}
 	nsess := r.PickInt(2, 2, 3)
 	var next int64
 	var all []int64
 	for s := 0; s < nsess; s++ {
 		ss := Session{End: "stop"}
 		if s == 0 {
-			ss.Steps = append(ss.Steps, Step{Op: "fwdpipe"})
+			sc.Ensure = r.Chance(1, 3)
+			if !sc.Ensure {
+				ss.Steps = append(ss.Steps, Step{Op: "fwdpipe", Name: sc.Pipe})
+			}
 		}
 		for k, rounds := 0, r.Range(1, 3); k < rounds; k++ {
 			var ts []int64
@@ -43,9 +51,13 @@ func genFwd(r *Rng) Scenario {
 			all = append(all, ts...)
 			ss.Steps = append(ss.Steps, Step{Op: "round", Ts: ts})
 		}
-		if r.Chance(1, 3) {
+		if s == nsess-1 && r.Chance(1, 3) {
+			// the last session ends by SIGKILL (after a crash nothing is claimed about the pipe's progress: the scenario ends
+			// with the start that follows): the server has to start, the pipe has to be there
+			ss.End = "kill"
+		} else if r.Chance(1, 3) {
 			// a crash inside the in-place rewrite of the pipe's progress file (as left by its last save)
-			ss.Surgery = []Surgery{{Kind: "progress-torn", K: r.PickInt(0, 1, 250, 500, 900, 999)}}
+			ss.Surgery = []Surgery{{Kind: "progress-torn", Name: sc.Pipe, K: r.PickInt(0, 1, 250, 500, 900, 999)}}
 		}
 		sc.Sessions = append(sc.Sessions, ss)
 	}
@@ -57,9 +69,81 @@ func genFwd(r *Rng) Scenario {
 	return sc
 }
 
+// genReal: the server is run by server.Start and driven through its RPC endpoint only; the flush timer runs (20 ms), a
+// "sync" waits until what was acknowledged can be read. Graceful stops (the context of server.Start is cancelled) may
+// come right after an acknowledgement; a SIGKILL comes after a sync
+func genReal(r *Rng) Scenario {
+	sc := Scenario{Kind: "real", NParts: r.PickInt(1, 2, 2)}
+	next := make([]int64, sc.NParts)
+	exists := map[string]bool{}
+	written := make([]bool, sc.NParts)
+	var all []int64
+	for s, nsess := 0, r.PickInt(1, 2, 2, 3); s < nsess; s++ {
+		ss := Session{End: "stop"}
+		if r.Chance(1, 3) {
+			ss.End = "kill"
+		}
+		for k, nsteps := 0, r.Range(1, 5); k < nsteps; k++ {
+			switch x := r.Intn(100); {
+			case x < 5:
+				for q := 0; q < sc.NParts; q++ {
+					if written[q] {
+						written[q] = false
+						ss.Steps = append(ss.Steps, Step{Op: "drop", Part: q})
+						break
+					}
+				}
+			case x < 60:
+				p := r.Intn(sc.NParts)
+				var ts []int64
+				for i, n := 0, r.Range(1, 3); i < n; i++ {
+					next[p] += int64(r.Range(1, 3))
+					ts = append(ts, next[p]*10+int64(p))
+				}
+				all = append(all, ts...)
+				written[p] = true
+				ss.Steps = append(ss.Steps, Step{Op: "write", Part: p, Ts: ts})
+				if r.Chance(1, 2) {
+					ss.Steps = append(ss.Steps, Step{Op: "sync"})
+				}
+			case x < 85:
+				n := r.PickStr(idlePool...)
+				if !exists[n] {
+					exists[n] = true
+					ss.Steps = append(ss.Steps, Step{Op: "pipe", Name: n})
+				}
+			default:
+				for _, n := range idlePool {
+					if exists[n] {
+						delete(exists, n)
+						ss.Steps = append(ss.Steps, Step{Op: "delpipe", Name: n})
+						break
+					}
+				}
+			}
+		}
+		if ss.End == "kill" {
+			ss.Steps = append(ss.Steps, Step{Op: "sync"})
+		}
+		sc.Sessions = append(sc.Sessions, ss)
+	}
+	sc.Range = [2]int64{1, 100}
+	if len(all) > 0 {
+		a, b := all[r.Intn(len(all))], all[r.Intn(len(all))]
+		if a > b {
+			a, b = b, a
+		}
+		sc.Range = [2]int64{a - 5, b + 5}
+	}
+	return sc
+}
+
 func genScenario(r *Rng) Scenario {
 	if r.Chance(1, 12) {
 		return genFwd(r)
+	}
+	if r.Chance(1, 12) {
+		return genReal(r)
 	}
 	sc := Scenario{Kind: "gen", NParts: r.PickInt(1, 2, 2, 3)}
 	written := make([]bool, sc.NParts) // the partition exists (as far as the generator can tell)
@@ -116,6 +200,8 @@ func genScenario(r *Rng) Scenario {
 					written[p] = false
 					ss.Steps = append(ss.Steps, Step{Op: "drop", Part: p})
 				}
+			case x < 9:
+				ss.Steps = append(ss.Steps, Step{Op: "failcreate"})
 			case x < 50:
 				p := r.Intn(sc.NParts)
 				written[p] = true
@@ -130,14 +216,14 @@ func genScenario(r *Rng) Scenario {
 			case x < 75:
 				ss.Steps = append(ss.Steps, Step{Op: "sync"})
 			case x < 90:
-				n := r.PickStr(pipeNames[:4]...)
+				n := r.PickStr(idlePool...)
 				if !exists[n] {
 					exists[n] = true
 					ss.Steps = append(ss.Steps, Step{Op: "pipe", Name: n})
 				}
 			default:
 				var have []string
-				for _, n := range pipeNames[:4] {
+				for _, n := range idlePool {
 					if exists[n] {
 						have = append(have, n)
 					}
@@ -150,7 +236,7 @@ func genScenario(r *Rng) Scenario {
 			}
 		}
 		if ss.End == "stop" && r.Chance(1, 2) {
-			kinds := []string{"tindex-torn", "tindex-torn", "drop-window", "cindex-drop", "cindex-torn", "cindex-stale", "cindex-stale"}
+			kinds := []string{"tindex-torn", "tindex-torn", "drop-window", "cindex-drop", "cindex-torn", "cindex-stale", "cindex-stale", "tidx-drop", "tidx-short", "tidx-zero"}
 			n := r.PickInt(1, 1, 1, 2)
 			for i := 0; i < n; i++ {
 				ss.Surgery = append(ss.Surgery, Surgery{Kind: kinds[r.Intn(len(kinds))], K: r.PickInt(0, 1, 250, 500, 900, 999), Part: r.Intn(sc.NParts)})
@@ -194,6 +280,10 @@ func corpus() []Scenario {
 		// a crash inside the tag-index save of a partition creation leaves a tindex.dat.tmp that is longer than the index the next
 		// starts save: it must not leak into tindex.dat (two more starts)
 		{Kind: "corpus", NParts: 1, Range: [2]int64{15, 25}, Sessions: []Session{{Steps: []Step{w(0, 10, 20, 30), sy}, End: "crash-create", EndK: 25}, {Steps: []Step{w(0, 40), sy}, End: "stop"}, {Steps: []Step{w(0, 50)}, End: "stop"}}},
+		// the server run by server.Start, driven through RPC only: acknowledged, graceful stop at once; pipes; a partition removed; SIGKILL
+		{Kind: "real", NParts: 2, Range: [2]int64{15, 25}, Sessions: []Session{{Steps: []Step{w(0, 10, 20, 30), sy, {Op: "pipe", Name: "pa"}, {Op: "pipe", Name: "pb"}, w(1, 11), w(0, 40)}, End: "stop"}, {Steps: []Step{{Op: "delpipe", Name: "pa"}, w(1, 21), sy, {Op: "drop", Part: 0}, w(1, 31), sy}, End: "kill"}, {Steps: []Step{w(0, 50)}, End: "stop"}}},
+		// the save of the tag index fails while a partition is created (files can not grow): the write is refused, nothing of it stays
+		{Kind: "corpus", NParts: 1, Range: [2]int64{15, 25}, Sessions: []Session{{Steps: []Step{w(0, 10, 20, 30), sy, {Op: "failcreate"}, w(0, 40)}, End: "stop"}, {Steps: []Step{{Op: "failcreate"}, w(0, 50), sy}, End: "kill"}}},
 		// C07_crash_pipes (C07_crash_pipes_shutdown_only_refuted): a pipe created since the last clean shutdown, SIGKILL;
 		// the server dies inside the write of the pipes save of the shutdown sequence; a pipe deleted, SIGKILL
 		{Kind: "corpus", NParts: 1, Range: [2]int64{15, 25}, Sessions: []Session{{Steps: []Step{w(0, 10, 20, 30), sy, {Op: "pipe", Name: "pa"}}, End: "kill"}}},
@@ -211,11 +301,28 @@ func corpus() []Scenario {
 		{Kind: "corpus", NParts: 2, Range: [2]int64{15, 25}, Sessions: []Session{{Steps: []Step{w(0, 10, 20), w(1, 11, 21), sy, w(1, 31), {Op: "drop", Part: 1}}, End: "stop"}, {Steps: []Step{w(1, 41), sy}, End: "stop"}}},
 		{Kind: "corpus", NParts: 2, Range: [2]int64{15, 25}, Sessions: []Session{{Steps: []Step{w(0, 10, 20), w(1, 11, 21), sy, {Op: "drop", Part: 1}}, End: "kill"}, {Steps: []Step{{Op: "drop", Part: 0}}, End: "stop"}}},
 		// C07_pipe_catches_up_once: a pipe forwards, graceful restart, the source is written again: nothing is forwarded twice
-		{Kind: "fwd", NParts: 2, Range: [2]int64{15, 25}, Sessions: []Session{{Steps: []Step{{Op: "fwdpipe"}, {Op: "round", Ts: []int64{10, 20, 30}}, {Op: "round", Ts: []int64{40}}}, End: "stop"}, {Steps: []Step{{Op: "round", Ts: []int64{50, 60}}, {Op: "round", Ts: []int64{70}}}, End: "stop"}, {Steps: []Step{{Op: "round", Ts: []int64{80}}}, End: "stop"}}},
+		{Kind: "fwd", NParts: 2, Range: [2]int64{15, 25}, Sessions: []Session{{Steps: []Step{{Op: "fwdpipe", Name: fwdPipe}, {Op: "round", Ts: []int64{10, 20, 30}}, {Op: "round", Ts: []int64{40}}}, End: "stop"}, {Steps: []Step{{Op: "round", Ts: []int64{50, 60}}, {Op: "round", Ts: []int64{70}}}, End: "stop"}, {Steps: []Step{{Op: "round", Ts: []int64{80}}}, End: "stop"}}},
 		// C07_torn_progress_starts: the progress file of the pipe torn (empty / half / all but a byte): the server starts, the pipe is
 		// there; it has no position: 30 (flushed, not forwarded when the file was torn) is passed over, nothing is forwarded twice
-		{Kind: "fwd", NParts: 2, Range: [2]int64{15, 25}, Sessions: []Session{{Steps: []Step{{Op: "fwdpipe"}, {Op: "round", Ts: []int64{10, 20}}, {Op: "round", Ts: []int64{30}}}, End: "stop", Surgery: []Surgery{{Kind: "progress-torn", K: 0}}}, {Steps: []Step{{Op: "round", Ts: []int64{40}}, {Op: "round", Ts: []int64{50}}}, End: "stop"}}},
-		{Kind: "fwd", NParts: 2, Range: [2]int64{15, 25}, Sessions: []Session{{Steps: []Step{{Op: "fwdpipe"}, {Op: "round", Ts: []int64{10, 20}}, {Op: "round", Ts: []int64{30}}}, End: "stop", Surgery: []Surgery{{Kind: "progress-torn", K: 500}}}, {Steps: []Step{{Op: "round", Ts: []int64{40}}}, End: "stop", Surgery: []Surgery{{Kind: "progress-torn", K: 999}}}, {Steps: []Step{{Op: "round", Ts: []int64{50}}, {Op: "round", Ts: []int64{60}}}, End: "stop"}}},
+		{Kind: "fwd", NParts: 2, Range: [2]int64{15, 25}, Sessions: []Session{{Steps: []Step{{Op: "fwdpipe", Name: fwdPipe}, {Op: "round", Ts: []int64{10, 20}}, {Op: "round", Ts: []int64{30}}}, End: "stop", Surgery: []Surgery{{Kind: "progress-torn", Name: fwdPipe, K: 0}}}, {Steps: []Step{{Op: "round", Ts: []int64{40}}, {Op: "round", Ts: []int64{50}}}, End: "stop"}}},
+		{Kind: "fwd", NParts: 2, Range: [2]int64{15, 25}, Sessions: []Session{{Steps: []Step{{Op: "fwdpipe", Name: fwdPipe}, {Op: "round", Ts: []int64{10, 20}}, {Op: "round", Ts: []int64{30}}}, End: "stop", Surgery: []Surgery{{Kind: "progress-torn", Name: fwdPipe, K: 500}}}, {Steps: []Step{{Op: "round", Ts: []int64{40}}}, End: "stop", Surgery: []Surgery{{Kind: "progress-torn", Name: fwdPipe, K: 999}}}, {Steps: []Step{{Op: "round", Ts: []int64{50}}, {Op: "round", Ts: []int64{60}}}, End: "stop"}}},
+		// the forwarding pipe as a configured pipe (EnsureAtStart): every Init ensures it, its progress is kept across restarts
+		{Kind: "fwd", Ensure: true, NParts: 2, Range: [2]int64{15, 25}, Sessions: []Session{{Steps: []Step{{Op: "round", Ts: []int64{10, 20}}, {Op: "round", Ts: []int64{30}}}, End: "stop"}, {Steps: []Step{{Op: "round", Ts: []int64{40}}}, End: "stop"}, {Steps: []Step{{Op: "round", Ts: []int64{50}}, {Op: "round", Ts: []int64{60}}}, End: "stop"}}},
+		// the loaders' refusals (files damaged from outside, no saver leaves them so): C07_torn_refuses_start, C07_data_without_record_refuses
+		{Kind: "corpus", NParts: 1, Range: [2]int64{15, 25}, Sessions: []Session{{Steps: []Step{w(0, 10, 20, 30), sy}, End: "stop", Surgery: []Surgery{{Kind: "tindex-damaged", K: 500}}}}},
+		{Kind: "corpus", NParts: 1, Range: [2]int64{15, 25}, Sessions: []Session{{Steps: []Step{w(0, 10), sy, {Op: "pipe", Name: "pa"}}, End: "stop", Surgery: []Surgery{{Kind: "pipes-damaged", K: 900}}}}},
+		{Kind: "corpus", NParts: 2, Range: [2]int64{15, 25}, Sessions: []Session{{Steps: []Step{w(0, 10, 20, 30), w(1, 5), sy}, End: "stop", Surgery: []Surgery{{Kind: "record-removed", Part: 1}}}}},
+		// ... also when, after such a start, a new partition gets its index tree in the file the stale roots point into
+		{Kind: "corpus", NParts: 2, Range: [2]int64{36, 95}, Sessions: []Session{{Steps: []Step{w(1, 11, 21, 41)}, End: "stop", Surgery: []Surgery{{Kind: "tidx-short"}}}, {Steps: []Step{w(1, 71, 81, 111), w(0, 10, 40, 70)}, End: "stop"}}},
+		{Kind: "corpus", NParts: 2, Range: [2]int64{36, 95}, Sessions: []Session{{Steps: []Step{w(1, 11, 21, 41)}, End: "stop", Surgery: []Surgery{{Kind: "tidx-zero"}}}, {Steps: []Step{w(1, 71, 81, 111), w(0, 10, 40, 70)}, End: "stop"}}},
+		// the tree files of the time index missing / cut / zeroed under an intact cindex.dat: the answers do not change
+		{Kind: "corpus", NParts: 1, Range: [2]int64{15, 35}, Sessions: []Session{{Steps: []Step{w(0, 10, 20, 30, 40), sy}, End: "stop", Surgery: []Surgery{{Kind: "tidx-drop"}}}, {Steps: []Step{w(0, 50), sy}, End: "stop", Surgery: []Surgery{{Kind: "tidx-short"}}}, {Steps: []Step{w(0, 60), sy}, End: "stop", Surgery: []Surgery{{Kind: "tidx-zero"}}}}},
+		// the pipe named "s": pipe<name>.dat of this pipe is pipes.dat, where the pipe definitions used to be kept: its positions and
+		// the definitions must not be one file: SIGKILL after it has forwarded (C07_crash_pipes_shared_file_refuted); graceful
+		// restarts (C07_progress_survives_shared_file_refuted); created, deleted, SIGKILL beside another pipe
+		{Kind: "fwd", Pipe: "s", NParts: 2, Range: [2]int64{15, 25}, Sessions: []Session{{Steps: []Step{{Op: "fwdpipe", Name: "s"}, {Op: "round", Ts: []int64{10, 20}}, {Op: "round", Ts: []int64{30}}}, End: "kill"}}},
+		{Kind: "fwd", Pipe: "s", NParts: 2, Range: [2]int64{15, 25}, Sessions: []Session{{Steps: []Step{{Op: "fwdpipe", Name: "s"}, {Op: "round", Ts: []int64{10, 20}}, {Op: "round", Ts: []int64{30}}}, End: "stop"}, {Steps: []Step{{Op: "round", Ts: []int64{40}}, {Op: "round", Ts: []int64{50}}}, End: "stop"}}},
+		{Kind: "corpus", NParts: 1, Range: [2]int64{15, 25}, Sessions: []Session{{Steps: []Step{w(0, 10), sy, {Op: "pipe", Name: "pa"}, {Op: "pipe", Name: "s"}, {Op: "delpipe", Name: "s"}, sy}, End: "kill"}}},
 		// the snapshot of the time index is lost and the first thing the restarted server is asked is a write to the chunk it
 		// does not know: the index is found inconsistent and rebuilt, RANGE shows the earlier events
 		{Kind: "corpus", NParts: 1, Range: [2]int64{15, 25}, Sessions: []Session{{Steps: []Step{w(0, 10, 20, 30), sy}, End: "stop", Surgery: []Surgery{{Kind: "cindex-drop"}}}, {Blind: true, Steps: []Step{w(0, 40), sy}, End: "stop"}}},
@@ -241,7 +348,7 @@ func gStep(s Step) string {
 	case "drop":
 		return GApp("SDrop", GNat(s.Part))
 	case "fwdpipe":
-		return GApp("SPipe", GNat(pipeIndex(fwdPipe)))
+		return GApp("SPipe", GNat(pipeIndex(s.Name)))
 	default:
 		return GApp("SDelPipe", GNat(pipeIndex(s.Name)))
 	}
@@ -254,7 +361,13 @@ func gSurgery(s Surgery) string {
 	case "drop-window":
 		return GApp("GTOrphan", GNat(s.Part))
 	case "progress-torn":
-		return GApp("GProgTorn", GNat(1), GNat(s.K)) // fwd scenarios: the destination is partition 1
+		return GApp("GProgTorn", GNat(pipeIndex(s.Name)), GNat(s.K))
+	case "tindex-damaged":
+		return GApp("GDamageT", GNat(s.K))
+	case "pipes-damaged":
+		return GApp("GDamageP", GNat(s.K))
+	case "record-removed":
+		return GApp("GRecordGone", GNat(s.Part))
 	case "cindex-drop":
 		return "GCDrop"
 	case "cindex-torn":
@@ -264,15 +377,21 @@ func gSurgery(s Surgery) string {
 	}
 }
 
-func gSession(s Session, np int) string {
+func gSession(s Session, np int, ensure bool, fwd string) string {
 	var st []string
+	if ensure {
+		st = append(st, GApp("SPipe", GNat(pipeIndex(fwd)))) // Init ensures the configured pipe (nothing happens when it is there)
+	}
 	for _, x := range s.Steps {
 		if x.Op == "round" {
 			// flush; the write of the round is acknowledged and stays buffered; the pipe (partition 0 -> the last partition)
 			// runs and catches up with what is flushed. (The server flushes the destination as well; the model leaves what
 			// was forwarded in the destination's buffer until the next flush - the next round or the graceful stop.)
-			st = append(st, "SSync", GApp("SWrite", GNat(0), GListZ(x.Ts)), GApp("SDrain", GNat(0), GNat(np-1)))
+			st = append(st, "SSync", GApp("SWrite", GNat(0), GListZ(x.Ts)), GApp("SDrain", GNat(pipeIndex(fwd)), GNat(0), GNat(np-1)))
 			continue
+		}
+		if x.Op == "failcreate" {
+			continue // the write is not acknowledged and leaves nothing behind: no step of the model
 		}
 		st = append(st, gStep(x))
 	}
@@ -281,6 +400,9 @@ func gSession(s Session, np int) string {
 		sg = append(sg, GApp("GPTorn", GNat(s.EndK))) // the crash inside the pipes save of the shutdown sequence; nothing else of it ran
 	}
 	for _, x := range s.Surgery {
+		if strings.HasPrefix(x.Kind, "tidx-") {
+			continue // the tree files of the time index are not in the model: nothing observable may depend on them
+		}
 		sg = append(sg, gSurgery(x))
 	}
 	return fmt.Sprintf("(mkSession %s %s %s)", GList(st), GBool(s.End == "stop"), GList(sg))
@@ -357,11 +479,17 @@ func mkCase(sc *Scenario, stream string) (*Case, error) {
 	}
 	ss := make([]string, len(sc.Sessions))
 	for i, s := range sc.Sessions {
-		ss[i] = gSession(s, sc.NParts)
+		ss[i] = gSession(s, sc.NParts, sc.Ensure, sc.fwdName())
 	}
 	os := make([]string, len(tr.obs))
 	for i, o := range tr.obs {
 		os[i] = gObs(o)
+	}
+	if n := len(sc.Sessions); sc.Kind == "fwd" && n > 0 && sc.Sessions[n-1].End == "kill" && len(tr.obs) == n+1 && tr.obs[n].Started {
+		// a forwarding pipe and a crash: the model leaves what the pipe forwarded last in the destination's buffer while the
+		// server has flushed it; after a crash nothing is claimed about a pipe's progress: the model only has to agree that
+		// the server starts (the oracle checks the pipe definitions and what the partitions hold)
+		os[n] = "OBlind"
 	}
 	viol, flushedAny, hazard, skip := oracle(sc, tr)
 	var drops []string
@@ -386,6 +514,9 @@ func mkCase(sc *Scenario, stream string) (*Case, error) {
 		}
 	}
 	tags = append(tags, "kind:"+sc.Kind)
+	if sc.Ensure {
+		tags = append(tags, "configured-pipe")
+	}
 	tags = append(tags, fmt.Sprintf("sessions:%d", len(sc.Sessions)))
 	for _, o := range tr.drops {
 		tags = append(tags, "drop-order:"+o)
